@@ -1,6 +1,6 @@
 SPECIFICATION Spec
 CONSTANTS
-  Prune = FALSE
+  Prune = TRUE
   Dev_h12 = FALSE
   Dev_h13 = FALSE
   Dev_t127 = FALSE
